@@ -17,7 +17,12 @@ Correspondence with the Lean model (`Fc.W`, FcModel/Truncation.lean):
   * `NoCompressor` / `ZLIBCompressor.get_decompressed_data` on every prefix of an encoded array vs
     `Fc.W.noCompReadE` / `compReadE` (codec as a finite table) and the length assertion,
   * the decision structure: `main` with the reader patched to raise every exception class the readers can raise
-    (and with in-memory data sets of every field-status combination) vs `Fc.W.runFileMode`.
+    (and with in-memory data sets of every field-status combination) vs `Fc.W.runFileMode`,
+  * the stored form of a compressed array: the harness' encoder vs `Fc.W.encodeComp` (codec as a table), and the
+    codec hypotheses of C18_payload_short_compressed (`CodecOK`) observed for zlib / lzma / lz4 on every block,
+  * expat vs the `XmlLite` scanner (`Fc.XmlLite.scan`) on every enumerated cut of every VTK-XML file; every
+    generated file is re-serialized by `Fc.XmlLite.Doc.ser` from its token tree (it is in the image of the
+    serializer, so C18_xml_prefix speaks about it) and the theorem's prediction is re-checked per offset.
 """
 from __future__ import annotations
 import contextlib
@@ -26,6 +31,7 @@ import itertools
 import os
 import shutil
 import tempfile
+import lzma
 import warnings
 import zlib
 
@@ -61,6 +67,15 @@ def build_sets(rng):
     sets.append(FileSet("vti-ascii", "vtk", {"m.vti": cf.vti_bytes(vals, cf.Cfg("ascii"))}, "m.vti", "m.vti"))
     sets.append(FileSet("vti-appended-base64", "vtk", {"m.vti": cf.vti_bytes(vals, cf.Cfg("appended-base64"))}, "m.vti", "m.vti"))
     sets.append(FileSet("vtr-binary-zlib", "vtk", {"m.vtr": cf.vtr_bytes(vals, cf.Cfg("binary", "zlib", "UInt64"))}, "m.vtr", "m.vtr"))
+    # file kinds on which a reader that tolerates a missing tail of the appended data would go wrong (seeded change
+    # "rsplit instead of find + assert" in the fallback parser): a rectilinear grid that is flat in z, whose last
+    # appended block is the single z ordinate, and poly data with lines / vertices only, whose last appended blocks
+    # (the empty Strips / Polys arrays) are never read
+    sets.append(FileSet("vtr-flat-appended-raw", "vtk", {"m.vtr": cf.vtr_bytes(vals, cf.Cfg("appended-raw", None, "UInt32"))}, "m.vtr", "m.vtr"))
+    sets.append(FileSet("vtp-lines-appended-raw", "vtk", {"m.vtp": cf.vtp_single_bytes(ds, cf.Cfg("appended-raw", None, "UInt32"), "Lines")}, "m.vtp", "m.vtp"))
+    sets.append(FileSet("vtp-lines-appended-base64", "vtk", {"m.vtp": cf.vtp_single_bytes(ds, cf.Cfg("appended-base64", None, "UInt32"), "Lines")}, "m.vtp", "m.vtp"))
+    sets.append(FileSet("vtp-verts-appended-raw", "vtk", {"m.vtp": cf.vtp_single_bytes(ds, cf.Cfg("appended-raw", None, "UInt64"), "Verts")}, "m.vtp", "m.vtp"))
+    sets.append(FileSet("vtp-verts-appended-base64", "vtk", {"m.vtp": cf.vtp_single_bytes(ds, cf.Cfg("appended-base64", None, "UInt64"), "Verts")}, "m.vtp", "m.vtp"))
     sets.append(FileSet("vts-appended-raw", "vtk", {"m.vts": cf.vts_bytes(vals, cf.Cfg("appended-raw", None, "UInt32"))}, "m.vts", "m.vts"))
     sets.append(FileSet("vts-ascii", "vtk", {"m.vts": cf.vts_bytes(vals, cf.Cfg("ascii"))}, "m.vts", "m.vts"))
     # parallel file with two pieces (disjoint point sets, own data)
@@ -258,6 +273,87 @@ def corr_fallback(ctx, sets, thorough):
                              what="fallback parser differs from Fc.W.fallback")
 
 
+
+# ------------------------------------------------------------------ correspondence: expat vs XmlLite
+
+def expat_accepts(data: bytes) -> bool:
+    from xml.etree import ElementTree
+    try:
+        ElementTree.fromstring(data)
+        return True
+    except ElementTree.ParseError:
+        return False
+
+
+def corr_xml(ctx, sets, thorough):
+    """The assumption "ElementTree raises on this prefix" against the `XmlLite` scanner of the model, on every
+    enumerated cut of every VTK-XML file (hyp: the prefix is printable ASCII - both parsers are then talking about
+    the same alphabet), plus the well-formed damaged files (array removed / shortened).  For files that are in the
+    image of `Fc.XmlLite.Doc.ser` (checked by re-serializing their token tree in the driver) the verdict predicted by
+    C18_xml_prefix (accepted iff the cut lies behind the last byte of the root element) is re-checked as well."""
+    if not ctx.driver_ok:
+        return
+    st = ctx.extra.setdefault("xml_prefix", {"files": 0, "in_image": 0, "not_in_image": [], "cuts_compared": 0,
+                                             "both_reject": 0, "both_accept": 0, "outside_hyp": 0,
+                                             "theorem_rechecked": 0, "wellformed_variants": 0})
+    seen = set()
+    for fs in sets:
+        if fs.kind != "vtk":
+            continue
+        content = fs.files[fs.target]
+        if (fs.target, content) in seen:
+            continue
+        seen.add((fs.target, content))
+        st["files"] += 1
+        # (a) the file as a document of the model
+        root = None
+        line = cf.xmllite_doc_line(content)
+        if line is not None:
+            rep = ctx.lean([line])[0]
+            if rep.get("hyp") == "1" and rep.get("model") == content.hex():
+                root = int(rep["root"])
+        if root is None:
+            st["not_in_image"].append(fs.label)
+        else:
+            st["in_image"] += 1
+        # (b) verdicts on the enumerated cuts (+ the complete file)
+        offs = sorted(set(cf.cut_offsets(content, thorough, 7, 3)) | {len(content)})
+        rep = ctx.lean([f"c18xml {content.hex()} {len(offs)} " + " ".join(map(str, offs))])[0]
+        got = rep.get("r", "").split("/")
+        for off, g in zip(offs, got):
+            part = content[:off]
+            if root is not None:
+                st["theorem_rechecked"] += 1
+                want = "1" if off > root else "0"
+                if g != want:
+                    ctx.inconsistent({"kind": "xml-prefix", "file": fs.label, "cut": off, "root_end": root}, g, want,
+                                     what="XmlLite.scan on a prefix differs from what C18_xml_prefix says")
+            if not cf.ascii_clean(part):
+                st["outside_hyp"] += 1
+                continue
+            e = "1" if expat_accepts(part) else "0"
+            st["cuts_compared"] += 1
+            if e == g:
+                st["both_accept" if e == "1" else "both_reject"] += 1
+            ctx.case(("xml-prefix", fs.label, off), nontrivial=(off < len(content)),
+                     tags=["corr-xml-prefix", "xml-" + ("accept" if e == "1" else "reject")])
+            if e != g:
+                ctx.mismatch({"kind": "xml-prefix", "file": fs.label, "content_hex": content.hex(), "cut": off}, e, g,
+                             what="expat and the XmlLite scanner disagree on a prefix (1 = accepted)")
+        # (c) well-formed damaged files
+        if not fs.target.endswith((".pvtu", ".pvd")):
+            variants = [d for _, d in cf.array_removals(content)] + [d for _, d in cf.array_shortenings(content)]
+            variants = [d for d in variants if cf.ascii_clean(d)]
+            if variants:
+                rep = ctx.lean([f"c18xml {d.hex()} 1 {len(d)}" for d in variants])
+                for d, r in zip(variants, rep):
+                    e = "1" if expat_accepts(d) else "0"
+                    st["wellformed_variants"] += 1
+                    ctx.case(("xml-variant", fs.label, d.hex()[:64], len(d)), nontrivial=True, tags=["corr-xml-variant"])
+                    if e != r.get("r"):
+                        ctx.mismatch({"kind": "xml-variant", "file": fs.label, "content_hex": d.hex()}, e, r.get("r"),
+                                     what="expat and the XmlLite scanner disagree on a damaged but well-formed file")
+
 # ------------------------------------------------------------------ correspondence: payload prefixes
 
 def _impl_payload(comp, enc, data: bytes, dtype, declared):
@@ -293,23 +389,66 @@ def corr_payload(ctx, rng, thorough):
         wants.append([_impl_payload(comp, enc, data[:o], np.dtype(f"<u{size}"), declared) for o in offs])
         metas.append(("nocomp", h, enc, data, offs))
         declared_of[id(data)] = declared
-    for n, h, enc, bs in itertools.product([0, 1, 7, 16, 33, 70], (4, 8), ("b64", "raw"), (16, 32)):
+    from fieldcompare.io.vtk import _compressors as _cmod
+    codecs = [("zlib", ZLIBCompressor, lambda c, n: zlib.decompress(c))]
+    codecs.append(("lzma", _cmod.LZMACompressor, lambda c, n: lzma.decompress(c)))
+    if "lz4" in cf.COMPRESS and getattr(_cmod, "_HAVE_LZ4", False):
+        import lz4.block as _lz4b
+        codecs.append(("lz4", _cmod.LZ4Compressor, lambda c, n: _lz4b.decompress(c, uncompressed_size=n)))
+    codec_obs = ctx.extra.setdefault("codec_hypotheses", {})
+    enc_lines, enc_meta = [], []
+    combos = [("zlib",) + t for t in itertools.product([0, 1, 7, 16, 33, 70], (4, 8), ("b64", "raw"), (16, 32))]
+    for cname in [c[0] for c in codecs[1:]]:
+        combos += [(cname, 33, 4, "raw", 16), (cname, 70, 8, "b64", 32), (cname, 7, 4, "b64", 16), (cname, 40, 8, "raw", 16)]
+    for cname, n, h, enc, bs in combos:
+        _, comp_cls, dec_fn = next(c for c in codecs if c[0] == cname)
         size = rng.choice([1, 2, 4])
         payload = bytes(rng.getrandbits(3) for _ in range(n - n % size))
         declared = len(payload) // size
-        cfg = cf.Cfg("binary", "zlib", "UInt64" if h == 8 else "UInt32", bs)
+        cfg = cf.Cfg("binary", cname, "UInt64" if h == 8 else "UInt32", bs)
         data = cf.encode_inline(cfg, payload) if enc == "b64" else cf.encode_raw(cfg, payload)
         blocks = [payload[i:i + bs] for i in range(0, len(payload), bs)]
-        table = [(zlib.compress(b), b) for b in blocks]
+        table = [(cf.COMPRESS[cname][0](b), b) for b in blocks]
+        # the stored form: harness encoder vs the spec writer of the model (`encodeComp`, codec as a table)
+        tb_enc = " ".join(f"{b.hex() or '-'} {c.hex() or '-'}" for c, b in table)
+        enc_lines.append(" ".join(f"c18enc {h} {enc} {bs} {len(table)} {tb_enc} {payload.hex() or '-'}".split()))
+        enc_meta.append((cname, h, enc, bs, payload, data))
+        # the codec hypotheses of the theorem (`CodecOK`), observed on every block and every strict prefix of it;
+        # the model's codec table knows complete blocks only, so a prefix the real codec accepts also shows up as an
+        # implementation / model mismatch below
+        ob = codec_obs.setdefault(cname, {"blocks": 0, "prefixes": 0, "prefix_raises": 0, "prefix_shorter": 0,
+                                          "prefix_not_shorter": 0, "roundtrip_failures": 0})
+        for c, b in list(table):
+            ob["blocks"] += 1
+            if dec_fn(c, bs) != b or len(c) >= 256 ** h:
+                ob["roundtrip_failures"] += 1
+            for t in range(len(c)):
+                ob["prefixes"] += 1
+                try:
+                    y = dec_fn(c[:t], bs)
+                except Exception:  # noqa: BLE001
+                    ob["prefix_raises"] += 1
+                    continue
+                ob["prefix_shorter" if len(y) < len(b) else "prefix_not_shorter"] += 1
+                table.append((c[:t], bytes(y)))     # keep the model's codec table faithful to the real codec
         offs = list(range(len(data) + 1)) if (thorough or len(data) < 120) else sorted(set(range(0, len(data) + 1, 3)) | {len(data)})
-        comp = ZLIBCompressor(header_type=np.dtype("<u8" if h == 8 else "<u4"))
+        comp = comp_cls(header_type=np.dtype("<u8" if h == 8 else "<u4"))
         tb = " ".join(f"{c.hex() or '-'} {d.hex() or '-'}" for c, d in table)
         lines.append(f"c18comp {h} {enc} {size} {declared} {len(table)} {tb} {data.hex() or '-'} {len(offs)} "
                      + " ".join(map(str, offs)).strip())
         lines[-1] = " ".join(lines[-1].split())
         wants.append([_impl_payload(comp, enc, data[:o], np.dtype(f"<u{size}"), declared) for o in offs])
-        metas.append(("zlib", h, enc, data, offs))
+        metas.append((cname, h, enc, data, offs))
         declared_of[id(data)] = declared
+    for (cname, h, enc, bs, payload, data), rep in zip(enc_meta, ctx.lean(enc_lines)):
+        got = rep.get("model", "")
+        ctx.case(("stored-form", cname, h, enc, bs, payload.hex()), nontrivial=len(payload) > 0, tags=[f"corr-stored-form-{cname}"])
+        if got != (data.hex() or "-"):
+            ctx.mismatch({"kind": "stored-form", "codec": cname, "header": h, "encoder": enc, "block": bs, "payload_hex": payload.hex()},
+                         data.hex(), got, what="the harness' encoder and Fc.W.encodeComp disagree on the stored form of a compressed array")
+    for cname, ob in codec_obs.items():
+        if ob["roundtrip_failures"] or ob["prefix_not_shorter"]:
+            ctx.notes.append(f"codec hypothesis of C18_payload_short_compressed NOT observed for {cname}: {ob}")
     reps = ctx.lean(lines)
     for (kind, h, enc, data, offs), want, rep in zip(metas, wants, reps):
         got = rep.get("r", "").split("/")
@@ -451,8 +590,11 @@ def run(ctx):
                 "/ column, with the damaged file as result or as reference; non-trivial = the reference parser finds the "
                 "fault data-losing; plus correspondence items (fallback-parser prefixes, payload prefixes, decision scenarios)")
     ctx.assumptions += [
-        "expat (xml.etree.ElementTree) rejects the truncated prefixes enumerated here (observed per offset, not proved)",
-        "zlib.decompress raises on a strict prefix of a compressed block (observed on every enumerated prefix)",
+        "expat (xml.etree.ElementTree) rejects the truncated prefixes enumerated here: proved for the XmlLite scanner of "
+        "the model (C18_xml_prefix); that expat agrees with XmlLite is observed on every enumerated cut (xml_prefix)",
+        "codec hypotheses of C18_payload_short_compressed: decompress(compress(b)) = b, and a strict prefix of a "
+        "compressed block raises (zlib, lzma) or decodes to fewer bytes (lz4) - observed on every enumerated block "
+        "(codec_hypotheses)",
         "numpy.genfromtxt / np.fromstring text parsing (observed)",
         "data-losing is judged by the harness' reference parser (fcv/c18files.py): complete data arrays + complete open "
         "tags + terminated appendix; CSV cells by numeric value, float differences within eps counted as 'tolerance'",
@@ -464,6 +606,7 @@ def run(ctx):
         corr_decision(ctx, ctx.rng)
         corr_payload(ctx, ctx.rng, thorough)
         corr_fallback(ctx, sets, thorough)
+        corr_xml(ctx, sets, thorough)
         for i, fs in enumerate(sets):
             enumerate_faults(ctx, runner, fs, thorough, phase=ctx.rng.randrange(7))
         search_csv_fill(ctx, runner)
